@@ -76,11 +76,11 @@ theorem firstAmt_le (d : Nat) : ∀ cs : List (Nat × Nat), firstAmt d cs ≤ am
   | [] => by simp [firstAmt, amtOf]
   | c :: cs => by
     by_cases hc : c.1 = d
-    · have : firstAmt d (c :: cs) = c.2 := by simp [firstAmt, List.find?_cons, hc]
+    · have : firstAmt d (c :: cs) = c.2 := by simp [firstAmt, hc]
       rw [this]
       simp only [amtOf, if_pos hc]
       omega
-    · have : firstAmt d (c :: cs) = firstAmt d cs := by simp [firstAmt, List.find?_cons, hc]
+    · have : firstAmt d (c :: cs) = firstAmt d cs := by simp [firstAmt, hc]
       rw [this]
       simp only [amtOf, if_neg hc]
       have := firstAmt_le d cs
@@ -91,11 +91,11 @@ theorem amtOf_filter (d : Nat) : ∀ cs : List (Nat × Nat), amtOf d (cs.filter 
   | c :: cs => by
     by_cases h0 : c.2 = 0
     · have : (c :: cs).filter (fun c => c.2 ≠ 0) = cs.filter (fun c => c.2 ≠ 0) := by
-        simp [List.filter_cons, h0]
+        simp [h0]
       rw [this, amtOf_filter d cs]
       simp [amtOf, h0]
     · have : (c :: cs).filter (fun c => c.2 ≠ 0) = c :: cs.filter (fun c => c.2 ≠ 0) := by
-        simp [List.filter_cons, h0]
+        simp [h0]
       rw [this]
       simp only [amtOf, amtOf_filter d cs]
 
@@ -339,5 +339,535 @@ theorem swapOps_view {name : Asset → String} {p : Nat} {a0 a1 : Asset} {w w' :
   · simp only [bind_ok_iff, pure_ok_iff] at h
     obtain ⟨_, _, w1, h1, _, _, rfl⟩ := h
     exact hops_view hne _ hI h1
+
+/-! ### the result of one operation, seen from the pair -/
+
+/-- extra freshness needed by `PairInv.lpNoPair`: the address of a new pair contract is not a cw20 contract -/
+def FreshPair (w : World) (op : Op) : Prop :=
+  ∀ s f a0 a1 req c np nl, op = .factory s f (.createPair a0 a1 req c np nl) → w.tok np = none
+
+/-- what an operation does to the pair: the reserve product grows (and the LP supply does not), or — for
+operations that are not swaps — the share value does not decrease, or an in-window swap on the pair -/
+def ViewRes (w w' : World) (op : Op) (p : Nat) (a0 a1 : Asset) (lp : Nat) : Prop :=
+  (Grow (bal w a0 p) (bal w a1 p) (bal w' a0 p) (bal w' a1 p) ∧ supply w' lp ≤ supply w lp) ∨
+  (¬ IsSwapOp op ∧ NonDecr (viewOf w p a0 a1 lp) (viewOf w' p a0 a1 lp)) ∨
+  WindowedOn w op p
+
+/-- the pair pays nothing and mints nothing -/
+theorem calm {S Mn N : Nat → Prop} {w w' : World} {op : Op} {p : Nat} {a0 a1 : Asset} {lp : Nat}
+    (hinv : PairInv w p a0 a1 lp) (tr : Tr S Mn N w w') (hS : ¬ S p) (hM : ¬ Mn p) :
+    ViewRes w w' op p a0 a1 lp :=
+  Or.inl ⟨Grow.of_le (tr.keep _ _ hS) (tr.keep _ _ hS), tr.supply_le hM hinv.lpLive⟩
+
+theorem hinv_of {w : World} {p : Nat} {a0 a1 : Asset} {lp : Nat} (hinv : PairInv w p a0 a1 lp) : HInv w p a0 a1 := by
+  obtain ⟨P, hP, e0, e1, _⟩ := hinv.pair
+  exact ⟨⟨P, hP, e0, e1⟩, hinv.pNotRouter⟩
+
+/-- a route entered after a credit `w → w0` that the pair does not pay for -/
+theorem route_res {name : Asset → String} {S Mn N : Nat → Prop} {w w0 w' : World} {op : Op} {p : Nat}
+    {a0 a1 : Asset} {lp : Nat} {sender : Nat} {ops : List (Asset × Asset)} {mn tt : Option Nat}
+    (hinv : PairInv w p a0 a1 lp) (tr : Tr S Mn N w w0) (hS : ¬ S p) (hM : ¬ Mn p)
+    (h : routerSwapOps name w0 sender ops mn tt = .ok w')
+    (htrace : swapsOn w op = hopTrace w0 (tt.getD sender) ops) : ViewRes w w' op p a0 a1 lp := by
+  have hI0 := (hinv_of hinv).of_stat tr.stat
+  obtain ⟨hs, hv⟩ := swapOps_view hinv.distinct hI0 h
+  have g0 : Grow (bal w a0 p) (bal w a1 p) (bal w0 a0 p) (bal w0 a1 p) :=
+    Grow.of_le (tr.keep _ _ hS) (tr.keep _ _ hS)
+  rcases hv with g | ⟨t, ht, e⟩
+  · exact Or.inl ⟨g0.trans g, by rw [hs]; exact tr.supply_le hM hinv.lpLive⟩
+  · exact Or.inr (Or.inr ⟨t, by rw [htrace]; exact ht, e⟩)
+
+/-! ### withdrawal -/
+
+theorem withdraw_view {w w' : World} {t s p amt : Nat} {out : Out} {a0 a1 : Asset} {lp : Nat}
+    (hinv : PairInv w p a0 a1 lp) (hsp : s ≠ p) (hsl : s ≠ lp)
+    (h : tokSendPair w t s p amt .withdraw = .ok (w', out)) :
+    NonDecr (viewOf w p a0 a1 lp) (viewOf w' p a0 a1 lp) := by
+  obtain ⟨P, hP, e0, e1, e2⟩ := hinv.pair
+  subst e0 e1 e2
+  obtain ⟨_, w0, x0, x1, rfl, _, _⟩ := Liquidity.tokSendPair_withdraw_ok hP h
+  obtain ⟨_, ha1, hab, c0, c1, hsup, _, _, _, _, hb0, hb1, _, _⟩ :=
+    Liquidity.withdraw_effect hP hsp hinv.distinct hinv.notLp0 hinv.notLp1 h
+  simp only [Spec.c04, Bool.and_eq_true, decide_eq_true_eq] at c0 c1
+  have hpos : 0 < supply w P.lp := by
+    have := Liquidity.tokSumOK_holder (h := s) hinv.sumOK
+    omega
+  have hres := hinv.reserved hpos
+  have hsum := hinv.sumOK [s, P.lp] (by simp [hsl])
+  simp only [sumBal, List.map_cons, List.map_nil, List.sum_cons, List.sum_nil] at hsum
+  have ha : amt < supply w P.lp := by omega
+  have nd := C03.withdraw_nondecr c0.1 c1.1 ha
+  have f0 : bal w' P.a0 p = bal w P.a0 p - x0 := by omega
+  have f1 : bal w' P.a1 p = bal w P.a1 p - x1 := by omega
+  have fS : supply w' P.lp = supply w P.lp - amt := by omega
+  show NonDecr (bal w P.a0 p, bal w P.a1 p, supply w P.lp) (bal w' P.a0 p, bal w' P.a1 p, supply w' P.lp)
+  rw [f0, f1, fS]
+  exact nd
+
+/-! ### provision -/
+
+/-- the pool of an asset net of the deposit, as `provide_liquidity` computes it -/
+def netPool (a : Asset) (r d : Nat) : Nat :=
+  match a with
+  | .native _ => r - d
+  | .token _ => r
+
+theorem provide_side {w w0 w1 : World} {s p : Nat} {funds : List (Nat × Nat)}
+    (h0 : attach w s p funds = .ok w0) (hsp : s ≠ p) (a : Asset) (d : Nat)
+    (hn : ∀ dd, a = .native dd → Spec.c09 dd d funds = true ∧ bal w1 a p = bal w0 a p)
+    (ht : ∀ t, a = .token t → bal w1 a p = bal w0 a p + d ∧ bal w1 a s + d = bal w0 a s) :
+    bal w a p ≤ netPool a (bal w0 a p) d ∧ bal w1 a p = netPool a (bal w0 a p) d + d := by
+  cases a with
+  | native dd =>
+    obtain ⟨c, e⟩ := hn dd rfl
+    have hcr := attach_credit h0 hsp dd
+    rw [c09_first c] at hcr
+    simp only [netPool, bal_native] at *
+    omega
+  | token t =>
+    obtain ⟨e, _⟩ := ht t rfl
+    have : bal w0 (.token t) p = bal w (.token t) p := by simp [bal, (attach_same h0).2]
+    simp only [netPool]
+    omega
+
+theorem provide_view {w w' : World} {s p : Nat} {funds : List (Nat × Nat)} {as0 as1 : Asset} {am0 am1 : Nat}
+    {tol rcv : Option Nat} {out : Out} {a0 a1 : Asset} {lp : Nat}
+    (hinv : PairInv w p a0 a1 lp) (hsp : s ≠ p)
+    (h : pairExec w s p funds (.provide as0 am0 as1 am1 tol rcv) = .ok (w', out)) :
+    NonDecr (viewOf w p a0 a1 lp) (viewOf w' p a0 a1 lp) := by
+  obtain ⟨P, hP, e0, e1, e2⟩ := hinv.pair
+  by_cases hS : supply w lp = 0
+  · intro hpos
+    have hpos' : 0 < supply w lp := hpos
+    omega
+  obtain ⟨P', w0, w1, sh, hP', h0, h1, he⟩ := C14.pairExec_provide h
+  rw [hP] at hP'
+  injection hP' with hP'
+  subst hP'
+  simp only [Prod.mk.injEq] at he
+  obtain ⟨rfl, _⟩ := he
+  subst e0 e1 e2
+  have hSeq : supply w P.lp = supply w0 P.lp := by simp [supply, (attach_same h0).2]
+  have hS0 : supply w0 P.lp ≠ 0 := by rw [← hSeq]; exact hS
+  obtain ⟨d0, d1, _, _, n0, n1, t0, t1, _, hc, hsup, _, _⟩ :=
+    Liquidity.provide_effect_pos hsp hinv.distinct hinv.notLp0 hinv.notLp1 hS0 h1
+  obtain ⟨i0, j0⟩ := provide_side h0 hsp P.a0 d0 n0 t0
+  obtain ⟨i1, j1⟩ := provide_side h0 hsp P.a1 d1 n1 t1
+  have hc' : Spec.c05Pos (supply w0 P.lp) d0 d1 (netPool P.a0 (bal w0 P.a0 p) d0)
+      (netPool P.a1 (bal w0 P.a1 p) d1) sh = true := hc
+  simp only [Spec.c05Pos, Bool.and_eq_true, Bool.or_eq_true, decide_eq_true_eq] at hc'
+  have nd := C03.provide_nondecr hc'.1.1 hc'.1.2
+  have pre : NonDecr (bal w P.a0 p, bal w P.a1 p, supply w0 P.lp)
+      (netPool P.a0 (bal w0 P.a0 p) d0, netPool P.a1 (bal w0 P.a1 p) d1, supply w0 P.lp) :=
+    C03.swap_nondecr (Nat.mul_le_mul i0 i1)
+  show NonDecr (bal w P.a0 p, bal w P.a1 p, supply w P.lp) (bal w1 P.a0 p, bal w1 P.a1 p, supply w1 P.lp)
+  rw [hSeq, j0, j1, hsup]
+  exact C03.nonDecr_trans pre nd
+
+/-- the first provision mints the reserved unit to the LP token's own address -/
+theorem provide_reserved {w w' : World} {s p : Nat} {funds : List (Nat × Nat)} {as0 as1 : Asset} {am0 am1 : Nat}
+    {tol rcv : Option Nat} {out : Out} {P : PairSt} (hP : w.pair p = some P) (hS : supply w P.lp = 0)
+    (h : pairExec w s p funds (.provide as0 am0 as1 am1 tol rcv) = .ok (w', out)) :
+    1 ≤ bal w' (.token P.lp) P.lp := by
+  obtain ⟨P', w0, w1, sh, hP', h0, h1, he⟩ := C14.pairExec_provide h
+  rw [hP] at hP'
+  injection hP' with hP'
+  subst hP'
+  simp only [Prod.mk.injEq] at he
+  obtain ⟨rfl, _⟩ := he
+  have hS0 : supply w0 P.lp = 0 := by
+    have : supply w0 P.lp = supply w P.lp := by simp [supply, (attach_same h0).2]
+    rw [this]; exact hS
+  obtain ⟨_, _, d0, d1, share, wa, wb, wc, _, _, _, _, hcase, _, _, hmint⟩ := Liquidity.pairProvide_ok h1
+  rcases hcase with ⟨_, _, hm1⟩ | ⟨hne, _, _⟩
+  · have b1 := bal_tokMint hm1 (.token P.lp) P.lp
+    have b2 := bal_tokMint hmint (.token P.lp) P.lp
+    rw [if_pos ⟨rfl, rfl⟩] at b1
+    rw [b2]
+    split <;> omega
+  · exact absurd hS0 hne
+
+/-! ### calls on the pair -/
+
+/-- a raw `Receive` sent to the pair by an external actor is rejected -/
+theorem receive_fails {w : World} {s p : Nat} {funds : List (Nat × Nat)} {from_ amount : Nat} {hk : Hook}
+    {r : World × Out} {a0 a1 : Asset} {lp : Nat} (hinv : PairInv w p a0 a1 lp) (hat : (w.tok s).isNone)
+    (h : pairExec w s p funds (.receive from_ amount hk) = .ok r) : False := by
+  obtain ⟨P, hP, e0, e1, e2⟩ := hinv.pair
+  obtain ⟨P', w0, hP', h0, h1⟩ := C14.pairExec_receive h
+  have hpair := (attach_same h0).1.pair
+  have hnone : w.tok s = none := by
+    cases hT : w.tok s with
+    | none => rfl
+    | some T => simp [hT] at hat
+  cases hk with
+  | swap offer amt b ms tt =>
+    obtain ⟨P'', hP'', _, hau, _⟩ := C14.pairReceive_swap h1
+    rw [hpair, hP] at hP''
+    injection hP'' with hP''
+    subst hP''
+    have hsome : (w.tok s).isSome := by
+      rcases hau with e | e
+      · exact hinv.live0 s (e0.symm.trans e)
+      · exact hinv.live1 s (e1.symm.trans e)
+    rw [hnone] at hsome
+    cases hsome
+  | withdraw =>
+    obtain ⟨P'', hP'', hs, _⟩ := C14.pairReceive_withdraw h1
+    rw [hpair, hP] at hP''
+    injection hP'' with hP''
+    subst hP''
+    obtain ⟨T, hT, _⟩ := hinv.lpLive
+    rw [← e2, ← hs, hnone] at hT
+    cases hT
+  | routerOps ops mn tt => exact C14.pairReceive_routerOps h1
+  | garbage => exact C14.pairReceive_garbage h1
+
+theorem direct_swap_view {w w' : World} {s p : Nat} {funds : List (Nat × Nat)} {offer : Asset} {amt : Nat}
+    {b ms tt : Option Nat} {out : Out} {a0 a1 : Asset} {lp : Nat}
+    (hinv : PairInv w p a0 a1 lp) (hsp : s ≠ p)
+    (h : pairExec w s p funds (.swap offer amt b ms tt) = .ok (w', out)) :
+    ViewRes w w' (.pair s p funds (.swap offer amt b ms tt)) p a0 a1 lp := by
+  obtain ⟨P, hP, e0, e1, e2⟩ := hinv.pair
+  cases offer with
+  | token t => exact absurd h C14.pairExec_swap_token
+  | native d =>
+    obtain ⟨P', w0, w1, o, hP', h0, hsw, he⟩ := C14.pairExec_swap_native h
+    rw [hP] at hP'
+    injection hP' with hP'
+    subst hP'
+    simp only [Prod.mk.injEq] at he
+    obtain ⟨rfl, _⟩ := he
+    subst e0 e1 e2
+    have hc := c09_first ((Props.C09.assertSent_iff d amt funds).1 (C02.pairSwap_ok hsw).1)
+    have hcr := attach_credit h0 hsp d
+    rw [hc] at hcr
+    have tr0 : Tr (fun z => z = s) (fun _ => False) (fun _ => False) w w0 := attach_tr rfl h0
+    have hps : ¬ (fun z => z = s) p := fun e => hsp e.symm
+    have htok := (attach_same h0).2
+    rcases swap_on_p (w := w) hinv.distinct hsw hcr (tr0.keep _ _ hps) with ⟨g, hs⟩ | hw
+    · refine Or.inl ⟨g, ?_⟩
+      rw [hs]
+      exact Nat.le_of_eq (by simp [supply, htok])
+    · refine Or.inr (Or.inr ⟨_, ?_, rfl, hw⟩)
+      simp only [swapsOn, h0, hP]
+      exact List.mem_singleton.mpr rfl
+
+theorem hook_swap_view {w w' : World} {t s p amt : Nat} {offer : Asset} {a : Nat} {b ms tt : Option Nat}
+    {out : Out} {a0 a1 : Asset} {lp : Nat} (hinv : PairInv w p a0 a1 lp) (hsp : s ≠ p)
+    (h : tokSendPair w t s p amt (.swap offer a b ms tt) = .ok (w', out)) :
+    ViewRes w w' (.tokSend t s p amt (.swap offer a b ms tt)) p a0 a1 lp := by
+  obtain ⟨P, hP, e0, e1, e2⟩ := hinv.pair
+  obtain ⟨P', w0, o, _, hP', htr, hof, _, _, hsw⟩ := C02.tokSendPair_swap_ok h
+  rw [hP] at hP'
+  injection hP' with hP'
+  subst hP'
+  subst e0 e1 e2
+  subst hof
+  obtain ⟨_, _, c1, _, c5⟩ := C02.tokTransfer_effect hsp htr
+  rcases swap_on_p_exact (w := w) hinv.distinct hsw c1 (fun b hb => c5 b p (Or.inl hb)) with ⟨g, hs⟩ | hw
+  · exact Or.inl ⟨g, by rw [hs, supply_tokTransfer htr]; exact Nat.le_refl _⟩
+  · refine Or.inr (Or.inr ⟨_, ?_, rfl, hw⟩)
+    simp only [swapsOn, hP]
+    exact List.mem_singleton.mpr rfl
+
+/-! ### every operation -/
+
+theorem view_cases {name : Asset → String} {w w' : World} {op : Op} {out : Out} {p : Nat} {a0 a1 : Asset} {lp : Nat}
+    (hinv : PairInv w p a0 a1 lp) (hv : ValidOp w op) (h : exec name w op = .ok (w', out)) :
+    ViewRes w w' op p a0 a1 lp := by
+  obtain ⟨P, hP, e0, e1, e2⟩ := hinv.pair
+  obtain ⟨hap, hat, har, haf⟩ := hv.actor
+  have hsp : actorOf op ≠ p := by
+    intro e
+    rw [e, hP] at hap
+    simp at hap
+  have hsl : actorOf op ≠ lp := by
+    intro e
+    obtain ⟨T, hT, _⟩ := hinv.lpLive
+    rw [e, hT] at hat
+    simp at hat
+  have hF : ¬ (fun _ : Nat => False) p := fun e => e
+  cases op with
+  | bankSend s d cs =>
+    simp only [exec, bind_ok_iff, pure_ok_iff, Prod.mk.injEq] at h
+    obtain ⟨w1, h1, rfl, _⟩ := h
+    exact calm hinv (bankSend_tr (S := fun z => z = s) (Mn := fun _ => False) (N := fun _ => False) rfl h1)
+      (fun e => hsp e.symm) hF
+  | tokTransfer t s d a =>
+    simp only [exec, bind_ok_iff, pure_ok_iff, Prod.mk.injEq] at h
+    obtain ⟨w1, h1, rfl, _⟩ := h
+    exact calm hinv (Tr.xfer (S := fun z => z = s) (Mn := fun _ => False) (N := fun _ => False) rfl h1)
+      (fun e => hsp e.symm) hF
+  | tokIncAllow t o s a =>
+    simp only [exec, bind_ok_iff, pure_ok_iff, Prod.mk.injEq] at h
+    obtain ⟨w1, h1, rfl, _⟩ := h
+    exact calm hinv (Tr.incAllow (S := fun _ => False) (Mn := fun _ => False) (N := fun _ => False) h1) hF hF
+  | tokBurn t s a =>
+    simp only [exec, bind_ok_iff, pure_ok_iff, Prod.mk.injEq] at h
+    obtain ⟨w1, h1, rfl, _⟩ := h
+    exact calm hinv (Tr.burn (S := fun z => z = s) (Mn := fun _ => False) (N := fun _ => False) rfl h1)
+      (fun e => hsp e.symm) hF
+  | tokSend t s d amt hk =>
+    simp only [exec] at h
+    unfold tokSend at h
+    split at h
+    · by_cases hdp : d = p
+      · subst hdp
+        cases hk with
+        | swap offer a b ms tt => exact hook_swap_view hinv hsp h
+        | withdraw => exact Or.inr (Or.inl ⟨fun e => e, withdraw_view hinv hsp hsl h⟩)
+        | routerOps ops mn tt =>
+          exfalso
+          unfold tokSendPair at h
+          simp only [bind_ok_iff] at h
+          obtain ⟨w1, _, h2⟩ := h
+          exact C14.pairReceive_routerOps h2
+        | garbage =>
+          exfalso
+          unfold tokSendPair at h
+          simp only [bind_ok_iff] at h
+          obtain ⟨w1, _, h2⟩ := h
+          exact C14.pairReceive_garbage h2
+      · refine calm hinv (tokSendPair_tr (S := fun z => z = s ∨ z = d) (Mn := fun _ => False)
+          (N := fun _ => False) h (Or.inl rfl) (Or.inr rfl)) ?_ hF
+        rintro (e | e)
+        · exact hsp e.symm
+        · exact hdp e.symm
+    · rename_i hd
+      split at h
+      · rename_i hdr
+        simp only [bind_ok_iff, pure_ok_iff, Prod.mk.injEq] at h
+        obtain ⟨w1, h1, w2, h2, rfl, _⟩ := h
+        cases hk with
+        | routerOps ops mn tt =>
+          have tr0 : Tr (fun z => z = s) (fun _ => False) (fun _ => False) w w1 := .xfer rfl h1
+          have h2' : routerSwapOps name w1 s ops mn tt = .ok w2 := h2
+          refine route_res hinv tr0 (fun e => hsp e.symm) hF h2' ?_
+          have hdn : (w.pair d).isNone = true := by
+            cases hh : w.pair d with
+            | none => rfl
+            | some Q => simp [hh] at hd
+          simp only [swapsOn]
+          rw [if_pos ⟨hdn, hdr⟩]
+          simp only [h1]
+        | swap offer a b ms tt => cases h2
+        | withdraw => cases h2
+        | garbage => cases h2
+      · cases h
+  | pair s q f m =>
+    simp only [exec] at h
+    by_cases hqp : q = p
+    · subst hqp
+      cases m with
+      | provide as0 am0 as1 am1 tol rcv => exact Or.inr (Or.inl ⟨fun e => e, provide_view hinv hsp h⟩)
+      | swap offer amt b ms tt => exact direct_swap_view hinv hsp h
+      | receive from_ amount hk => exact (receive_fails hinv hat h).elim
+      | updateDecimals d da db =>
+        obtain ⟨P', w0, w1, _, h0, h1, he⟩ := C14.pairExec_updateDecimals h
+        simp only [Prod.mk.injEq] at he
+        obtain ⟨rfl, _⟩ := he
+        exact calm hinv ((attach_tr (S := fun z => z = s) (Mn := fun _ => False) (N := fun _ => False) rfl h0).trans
+          (pairUpdateDecimals_tr h1)) (fun e => hsp e.symm) hF
+    · refine calm hinv (pairExec_tr (S := fun z => z = s ∨ z = q) (Mn := fun z => z = q) (N := fun _ => False)
+        h (Or.inl rfl) (Or.inr rfl) (fun _ _ _ _ _ _ _ => rfl)) ?_ (fun e => hqp e.symm)
+      rintro (e | e)
+      · exact hsp e.symm
+      · exact hqp e.symm
+  | router s f m =>
+    simp only [exec, bind_ok_iff, pure_ok_iff, Prod.mk.injEq] at h
+    obtain ⟨w1, h1, rfl, _⟩ := h
+    unfold routerExec at h1
+    simp only [bind_ok_iff] at h1
+    obtain ⟨w0, h0, h1⟩ := h1
+    have tr0 : Tr (fun z => z = s) (fun _ => False) (fun _ => False) w w0 := attach_tr rfl h0
+    have hr0 := (attach_same h0).1.router
+    cases m with
+    | swapOps ops mn tt =>
+      refine route_res hinv tr0 (fun e => hsp e.symm) hF h1 ?_
+      simp only [swapsOn, h0]
+    | swapOp o a tt => exact absurd ((C14.routerHop_ok h1).1.trans hr0) har
+    | assertMin a prev mn rcv =>
+      simp only [bind_ok_iff, pure_ok_iff] at h1
+      obtain ⟨_, h2, _⟩ := h1
+      exact absurd ((C14.routerAssertMin_ok h2).trans hr0) har
+    | receive from_ amount hk =>
+      cases hk with
+      | routerOps ops mn tt =>
+        have h1' : routerSwapOps name w0 from_ ops mn tt = .ok w1 := h1
+        refine route_res hinv tr0 (fun e => hsp e.symm) hF h1' ?_
+        simp only [swapsOn, h0]
+      | swap offer a b ms tt => cases h1
+      | withdraw => cases h1
+      | garbage => cases h1
+  | factory s f m =>
+    simp only [exec, bind_ok_iff, pure_ok_iff, Prod.mk.injEq] at h
+    obtain ⟨w1, h1, rfl, _⟩ := h
+    refine calm hinv (facExec_tr (S := fun z => z = s) (Mn := fun _ => False) (N := fun _ => True) h1 rfl ?_)
+      (fun e => hsp e.symm) hF
+    intro x0 x1 req c np nl e
+    obtain ⟨f1, f2⟩ := hv.fresh s f x0 x1 req c np nl (by rw [e])
+    exact ⟨f1, f2, trivial⟩
+
+/-! ### the invariant -/
+
+theorem lp_not_src {w : World} {op : Op} {p : Nat} {a0 a1 : Asset} {lp : Nat}
+    (hinv : PairInv w p a0 a1 lp) (hv : ValidOp w op) :
+    ¬ (lp = actorOf op ∨ (w.pair lp).isSome ∨ lp = w.router) := by
+  rintro (e | e | e)
+  · obtain ⟨T, hT, _⟩ := hinv.lpLive
+    have hat := hv.actor.2.1
+    rw [← e, hT] at hat
+    simp at hat
+  · have hn := hinv.lpNoPair
+    cases hq : w.pair lp with
+    | none => rw [hq] at e; cases e
+    | some Q => rw [hq] at hn; cases hn
+  · exact hinv.lpNotRouter e
+
+theorem lp_keep {name : Asset → String} {w w' : World} {op : Op} {out : Out} {p : Nat} {a0 a1 : Asset} {lp : Nat}
+    (hinv : PairInv w p a0 a1 lp) (hv : ValidOp w op) (h : exec name w op = .ok (w', out)) :
+    bal w (.token lp) lp ≤ bal w' (.token lp) lp :=
+  (Liquidity.good_exec hv.fresh h).keep lp lp (lp_not_src hinv hv)
+
+/-- a positive LP supply stays positive: the reserved unit cannot be spent -/
+theorem pos_step {name : Asset → String} {w w' : World} {op : Op} {out : Out} {p : Nat} {a0 a1 : Asset} {lp : Nat}
+    (hinv : PairInv w p a0 a1 lp) (hv : ValidOp w op) (h : exec name w op = .ok (w', out))
+    (hpos : 0 < supply w lp) : 0 < supply w' lp := by
+  have h1 := hinv.reserved hpos
+  have h2 := lp_keep hinv hv h
+  have h3 := Liquidity.tokSumOK_holder (h := lp) ((Liquidity.good_exec hv.fresh h).sum lp hinv.sumOK)
+  omega
+
+theorem inv_step {name : Asset → String} {w w' : World} {op : Op} {out : Out} {p : Nat} {a0 a1 : Asset} {lp : Nat}
+    (hx : FreshPair w op) (hinv : PairInv w p a0 a1 lp) (hv : ValidOp w op)
+    (h : exec name w op = .ok (w', out)) : PairInv w' p a0 a1 lp := by
+  have tr := exec_tr hv.fresh h
+  have st := tr.stat
+  have good := Liquidity.good_exec hv.fresh h
+  obtain ⟨P, hP, e0, e1, e2⟩ := hinv.pair
+  obtain ⟨T, hT, hTm⟩ := hinv.lpLive
+  have live : ∀ t, (w.tok t).isSome → (w'.tok t).isSome := by
+    intro t ht
+    cases hU : w.tok t with
+    | none => rw [hU] at ht; cases ht
+    | some U =>
+      obtain ⟨U', hU', _⟩ := st.toks t U hU
+      rw [hU']; rfl
+  refine ⟨?_, hinv.distinct, hinv.notLp0, hinv.notLp1, ?_, fun t e => live t (hinv.live0 t e),
+    fun t e => live t (hinv.live1 t e), good.sum lp hinv.sumOK, ?_, ?_, ?_, ?_⟩
+  · obtain ⟨P', hP', f0, f1, f2⟩ := st.pairSome p P hP
+    exact ⟨P', hP', f0.trans e0, f1.trans e1, f2.trans e2⟩
+  · obtain ⟨T', hT', hm'⟩ := st.toks lp T hT
+    exact ⟨T', hT', hm'.trans hTm⟩
+  · intro hpos'
+    by_cases h0 : supply w lp = 0
+    · by_cases hm : MintOf op p
+      · obtain ⟨s, f, as0, am0, as1, am1, tol, r, rfl⟩ := hm
+        have := provide_reserved hP (by rw [e2]; exact h0) h
+        rw [e2] at this
+        exact this
+      · have := tr.supply_le hm hinv.lpLive
+        omega
+    · exact Nat.le_trans (hinv.reserved (Nat.pos_of_ne_zero h0)) (lp_keep hinv hv h)
+  · have hn : w.pair lp = none := by
+      have := hinv.lpNoPair
+      cases hq : w.pair lp with
+      | none => rfl
+      | some Q => rw [hq] at this; cases this
+    have hnew : ¬ NewOf op lp := by
+      rintro ⟨s, f, x0, x1, req, c, nl, rfl⟩
+      have := hx s f x0 x1 req c lp nl rfl
+      rw [hT] at this
+      cases this
+    rw [st.pairNone lp hnew hn]
+    rfl
+  · rw [st.router]; exact hinv.lpNotRouter
+  · rw [st.router]; exact hinv.pNotRouter
+
+/-! ### the theorems -/
+
+/-- the view part of a step needs no extra freshness -/
+theorem step_view {name : Asset → String} {w w' : World} {op : Op} {out : Out} {p : Nat} {a0 a1 : Asset} {lp : Nat}
+    (hinv : PairInv w p a0 a1 lp) (hv : ValidOp w op) (h : exec name w op = .ok (w', out)) :
+    NonDecr (viewOf w p a0 a1 lp) (viewOf w' p a0 a1 lp) ∨ WindowedOn w op p := by
+  rcases view_cases hinv hv h with ⟨g, hle⟩ | ⟨_, nd⟩ | hw
+  · exact Or.inl (grow_nondecr g hle (pos_step hinv hv h))
+  · exact Or.inl nd
+  · exact Or.inr hw
+
+/-- one step, under the extra freshness `FreshPair` (see the report: `FreshOK` does not exclude that a new
+pair contract is allocated the address of the LP token, which would break `PairInv.lpNoPair`) -/
+theorem step_nondecr' {name : Asset → String} {w w' : World} {op : Op} {out : Out} {p : Nat} {a0 a1 : Asset} {lp : Nat}
+    (hx : FreshPair w op) (hinv : PairInv w p a0 a1 lp) (hv : ValidOp w op) (h : exec name w op = .ok (w', out)) :
+    PairInv w' p a0 a1 lp ∧ (NonDecr (viewOf w p a0 a1 lp) (viewOf w' p a0 a1 lp) ∨ WindowedOn w op p) :=
+  ⟨inv_step hx hinv hv h, step_view hinv hv h⟩
+
+/-- every step of a history allocates pair addresses that are not cw20 contracts -/
+def FreshPairRun (name : Asset → String) : World → List Op → Prop
+  | _, [] => True
+  | w, op :: rest => FreshPair w op ∧ FreshPairRun name (step name w op) rest
+
+theorem run_cons (name : Asset → String) (w : World) (op : Op) (rest : List Op) :
+    run name w (op :: rest) = run name (step name w op) rest := rfl
+
+theorem history_nondecr' {name : Asset → String} {p : Nat} {a0 a1 : Asset} {lp : Nat} :
+    ∀ (ops : List Op) (w : World), PairInv w p a0 a1 lp → ValidRun name w ops → FreshPairRun name w ops →
+      NoWindowRun name p w ops →
+      PairInv (run name w ops) p a0 a1 lp ∧ NonDecr (viewOf w p a0 a1 lp) (viewOf (run name w ops) p a0 a1 lp)
+  | [], w, hinv, _, _, _ => ⟨hinv, C03.nonDecr_refl _⟩
+  | op :: rest, w, hinv, hv, hf, hnw => by
+    simp only [ValidRun] at hv
+    simp only [FreshPairRun] at hf
+    simp only [NoWindowRun] at hnw
+    obtain ⟨hv1, hv2⟩ := hv
+    obtain ⟨hf1, hf2⟩ := hf
+    obtain ⟨hnw1, hnw2⟩ := hnw
+    rw [run_cons]
+    cases hE : exec name w op with
+    | error e =>
+      have hst : step name w op = w := by unfold step; rw [hE]
+      rw [hst] at hv2 hf2 hnw2 ⊢
+      exact history_nondecr' rest w hinv hv2 hf2 hnw2
+    | ok r =>
+      obtain ⟨w1, out⟩ := r
+      have hst : step name w op = w1 := by unfold step; rw [hE]
+      rw [hst] at hv2 hf2 hnw2 ⊢
+      obtain ⟨hinv1, hview⟩ := step_nondecr' hf1 hinv hv1 hE
+      have nd1 := hview.resolve_right hnw1
+      obtain ⟨hinvN, ndN⟩ := history_nondecr' rest w1 hinv1 hv2 hf2 hnw2
+      exact ⟨hinvN, C03.nonDecr_trans nd1 ndN⟩
+
+theorem supply_stays_positive' {name : Asset → String} {p : Nat} {a0 a1 : Asset} {lp : Nat} :
+    ∀ (ops : List Op) (w : World), PairInv w p a0 a1 lp → ValidRun name w ops → FreshPairRun name w ops →
+      0 < supply w lp → 0 < supply (run name w ops) lp
+  | [], _, _, _, _, hpos => hpos
+  | op :: rest, w, hinv, hv, hf, hpos => by
+    simp only [ValidRun] at hv
+    simp only [FreshPairRun] at hf
+    obtain ⟨hv1, hv2⟩ := hv
+    obtain ⟨hf1, hf2⟩ := hf
+    rw [run_cons]
+    cases hE : exec name w op with
+    | error e =>
+      have hst : step name w op = w := by unfold step; rw [hE]
+      rw [hst] at hv2 hf2 ⊢
+      exact supply_stays_positive' rest w hinv hv2 hf2 hpos
+    | ok r =>
+      obtain ⟨w1, out⟩ := r
+      have hst : step name w op = w1 := by unfold step; rw [hE]
+      rw [hst] at hv2 hf2 ⊢
+      exact supply_stays_positive' rest w1 (inv_step hf1 hinv hv1 hE) hv2 hf2 (pos_step hinv hv1 hE hpos)
+
+/-- C01 at system level -/
+theorem swap_product {name : Asset → String} {w w' : World} {op : Op} {out : Out} {p : Nat} {a0 a1 : Asset} {lp : Nat}
+    (hinv : PairInv w p a0 a1 lp) (hv : ValidOp w op) (hs : IsSwapOp op) (h : exec name w op = .ok (w', out))
+    (hnw : ¬ WindowedOn w op p) :
+    bal w a0 p * bal w a1 p ≤ bal w' a0 p * bal w' a1 p ∧
+    (0 < bal w a0 p → 0 < bal w a1 p → 0 < bal w' a0 p ∧ 0 < bal w' a1 p) := by
+  rcases view_cases hinv hv h with ⟨g, _⟩ | ⟨hns, _⟩ | hw
+  · exact g
+  · exact absurd hs hns
+  · exact absurd hw hnw
 
 end Halo.C03W
